@@ -195,7 +195,9 @@ package httpgrpc
 //@   ensures[C03] otherwise_headers_and_trailers_are_set_once: lastresult(asMetadata, 1) == nil ==> result == nil && calls("(*internal.CallOptions).SetHeaders") == 1 && calls("(*internal.CallOptions).SetTrailers") == 1
 //@   assert_call[C03] (*internal.CallOptions).SetHeaders : the_decoded_headers: arg0 == copts && arg1 == lastresult(asMetadata, 0)
 //@   assert_call[C03] (*internal.CallOptions).SetTrailers : the_collected_trailers: arg0 == copts && arg1 == tlr && tlr != nil
-//@   modifies external, maps("metadata.MD"), mem("metadata.MD")
+//@   loop loop#1 invariant[C14,C02,C03] reply_headers_untouched_so_far: forall k string :: has(h, k) == old(has(h, k)) && h[k] == old(h[k])
+//@   ensures[C14,C02,C03] the_reply_headers_are_only_read: forall k string :: has(h, k) == old(has(h, k)) && h[k] == old(h[k])
+//@   modifies mem("metadata.MD")
 //
 // statFromResponse: the X-GRPC-Status header, when present and parseable, decides
 // the code (and message) whatever the HTTP status says; otherwise the HTTP status
@@ -248,6 +250,7 @@ package httpgrpc
 //@   ensures[C05] the_reply_body_is_drained_and_closed: lastresult("http.RoundTripper.RoundTrip", 1) == nil ==> calls("io.ReadCloser.Close") == 1 && called("ioutil.ReadAll")
 //@   assert_call[C05] io.ReadCloser.Close : the_reply_body: arg0 == reply_body
 //@   assert_call[C03] (*internal.CallOptions).SetHeaders : the_stored_reply_headers_to_the_header_options: arg0 == cs.copts && arg1 == cs.hd && cs.hd == lastresult(asMetadata, 0) && lastresult(asMetadata, 1) == nil && cs.hdErr == nil
+//@   assert_call[C02,C14] statFromResponse : of_the_reply_with_its_status_headers_as_received: arg0 == lastresult("http.RoundTripper.RoundTrip", 0) && xstatus(arg0) == at_return("http.RoundTripper.RoundTrip", xstatus(arg0)) && arg0.StatusCode == at_return("http.RoundTripper.RoundTrip", arg0.StatusCode) && len(arg0.Header[grpcDetailsHeader]) == at_return("http.RoundTripper.RoundTrip", len(arg0.Header[grpcDetailsHeader]))
 //@   assert_call[C03] statFromResponse : header_options_were_filled_before_any_message: len(lastresult(asMetadata, 0)) > 0 && len(cs.copts.Headers) > 0 ==> calls("(*internal.CallOptions).SetHeaders") == 1
 //@   ensures[C03] a_header_decoding_error_is_what_Header_reports: called(asMetadata) ==> cs.hdErr == lastresult(asMetadata, 1)
 //@   ensures[C02] a_non_ok_reply_status_leaves_a_non_ok_trailer: called("(*status.Status).Proto") ==> cs.tr.Code != 0
@@ -313,9 +316,9 @@ package httpgrpc
 //@   assert_call[C13] peer.NewContext : peer_of_the_request: arg1 == lastresult(peerFromRequest) && arg0 == req_ctx(r)
 //@   ensures[C03] handler_headers_and_trailers_copied: called("grpc.MethodDesc.Handler") ==> calls(toHeaders) == 2
 //@   assert_call[C01,C11] (http.Header).Set : only_the_protocol_headers_with_their_values: arg1 == "Allow" || (arg1 == "X-GRPC-Status" && arg2 == fmt_code_msg(statProto.Code, statProto.Message)) || (arg1 == "Content-Type" && arg2 == contentType) || (arg1 == "Content-Length" && arg2 == fmt_d(len(b)) && lastarg("(http.Header).Set", 1) == "Content-Type")
-//@   assert_call[C01,C11] http.ResponseWriter.Write : the_marshalled_response_after_type_and_length: arg1 == lastresult("encoding.Codec.Marshal", 0) && called("(http.Header).Set") && lastarg("(http.Header).Set", 1) == "Content-Length"
+//@   assert_call[C01,C11,C08] http.ResponseWriter.Write : the_marshalled_response_after_type_and_length: arg1 == lastresult("encoding.Codec.Marshal", 0) && called("(http.Header).Set") && lastarg("(http.Header).Set", 1) == "Content-Length"
 //@   ensures[C02,C14] failure_goes_to_the_error_renderer_once: called("grpc.MethodDesc.Handler") && lastresult("grpc.MethodDesc.Handler", 1) != nil ==> calls("var:errHandler") == 1 && !called("http.ResponseWriter.Write") && !called(writeError)
-//@   ensures[C02] success_writes_the_response_once: called("grpc.MethodDesc.Handler") && lastresult("grpc.MethodDesc.Handler", 1) == nil ==> !called("var:errHandler") && ((lastresult("encoding.Codec.Marshal", 1) != nil ==> calls(writeError) == 1 && lastarg(writeError, 1) == 500 && !called("http.ResponseWriter.Write")) && (lastresult("encoding.Codec.Marshal", 1) == nil ==> calls("http.ResponseWriter.Write") == 1 && !called(writeError) && lastarg("http.ResponseWriter.Write", 1) == lastresult("encoding.Codec.Marshal", 0)))
+//@   ensures[C02,C08] success_writes_the_response_once: called("grpc.MethodDesc.Handler") && lastresult("grpc.MethodDesc.Handler", 1) == nil ==> !called("var:errHandler") && ((lastresult("encoding.Codec.Marshal", 1) != nil ==> calls(writeError) == 1 && lastarg(writeError, 1) == 500 && !called("http.ResponseWriter.Write")) && (lastresult("encoding.Codec.Marshal", 1) == nil ==> calls("http.ResponseWriter.Write") == 1 && !called(writeError) && lastarg("http.ResponseWriter.Write", 1) == lastresult("encoding.Codec.Marshal", 0)))
 //@   assert_call[C02,C14] var:errHandler : with_request_context_and_nonzero_code: arg0 == req_ctx(r) && arg2 == w && status_code(arg1) != 0
 //@   assert_call[C02] encoding.Codec.Marshal : same_codec_as_the_request: arg0 == lastresult(getUnaryCodec)
 //@   ensures[C11] request_body_drained_and_closed: calls(drainAndClose) == 1
@@ -391,6 +394,9 @@ package httpgrpc
 //@   ensures[C03] header_and_trailer_options_are_filled_from_the_reply: called(statFromResponse) && (len(lastresult("internal.GetCallOptions").Headers) > 0 || len(lastresult("internal.GetCallOptions").Trailers) > 0) ==> calls(setMetadata) == 1
 //@   assert_call[C13] (*internal.CallOptions).SetPeer : the_peer_of_this_reply: arg0 == lastresult("internal.GetCallOptions") && arg1 == lastresult(getPeer)
 //@   assert_call[C02,C14] statFromResponse : of_the_reply: arg0 == lastresult("http.RoundTripper.RoundTrip", 0)
+//@   assert_call[C02,C14] statFromResponse : status_header_is_still_as_received: xstatus(arg0) == at_return("http.RoundTripper.RoundTrip", xstatus(arg0))
+//@   assert_call[C02,C14] statFromResponse : http_status_is_still_as_received: arg0.StatusCode == at_return("http.RoundTripper.RoundTrip", arg0.StatusCode)
+//@   assert_call[C02] statFromResponse : detail_headers_are_still_as_received: len(arg0.Header[grpcDetailsHeader]) == at_return("http.RoundTripper.RoundTrip", len(arg0.Header[grpcDetailsHeader]))
 //@   ensures[C02,C14] non_ok_status_is_returned: called(statFromResponse) && status_code(lastresult(statFromResponse)) != 0 ==> result != nil
 //@   ensures[C02] success_needs_ok_status_and_decoded_body: result == nil ==> called(statFromResponse) && status_code(lastresult(statFromResponse)) == 0 && called("encoding.Codec.Unmarshal") && lastresult("encoding.Codec.Unmarshal") == nil
 //@   assert_call[C01] encoding.Codec.Unmarshal : into_the_callers_response: arg2 == resp
@@ -457,7 +463,7 @@ package httpgrpc
 //@   assert_call[C01] encoding.Codec.Unmarshal : into_the_callers_message: arg0 == cs.codec && arg2 == m
 //@   ensures[C01] at_most_one_message_decoded_per_receive: calls("encoding.Codec.Unmarshal") <= 1
 //@   ensures[C08,C01] success_delivered_a_message: result == nil ==> calls("encoding.Codec.Unmarshal") == 1 && lastresult("encoding.Codec.Unmarshal") == nil
-//@   ensures[C08,C02] single_response_success_saw_a_clean_end: result == nil && !cs.respStream ==> calls("(*clientStream).readErrorIfDone") == 2 && lastresult("(*clientStream).readErrorIfDone", 0) && lastresult("(*clientStream).readErrorIfDone", 1) == io.EOF
+//@   ensures[C08,C02,C07] single_response_success_saw_a_clean_end: result == nil && !cs.respStream ==> calls("(*clientStream).readErrorIfDone") == 2 && lastresult("(*clientStream).readErrorIfDone", 0) && lastresult("(*clientStream).readErrorIfDone", 1) == io.EOF
 //@   ensures[C05,C08] an_extra_response_ends_the_stream_and_releases_the_reader: called("status.Error") && called("encoding.Codec.Unmarshal") && lastresult("encoding.Codec.Unmarshal") == nil ==> cs.done && calls("context.CancelFunc") == 1 && result == cs.rErr && result != nil
 //@   ensures[C08,C02] undecodable_message_is_internal: called("encoding.Codec.Unmarshal") && lastresult("encoding.Codec.Unmarshal") != nil ==> is_status_err(result) && err_status_code(result) == 13
 //@   modifies cs.rErr, cs.done, external
